@@ -187,6 +187,11 @@ def check(case, ctx):
     except SubstitutionError:
         ctx.label("skip:substitution-refused")
         return
+    except Exception:  # noqa
+        if spec["t"] == "subst":
+            ctx.label("skip:substitution-raised(C12)")     # exception type of substitute is C12's business
+            return
+        raise
     if case["witness"] == _NOVAL:
         ctx.label("skip:no-witness-built")
         return
